@@ -1,5 +1,306 @@
 package main
 
+import (
+	"fmt"
+	"go/ast"
+	"go/token"
+	"go/types"
+	"path/filepath"
+	"reflect"
+	"strings"
+)
+
+// ---------------------------------------------------------------- ct mode
+
+type site struct {
+	ID   int    `json:"id"`
+	Pos  string `json:"pos"`
+	Kind string `json:"kind"`
+	Func string `json:"func"`
+}
+
+var sites []site
+
+var denyPkgs = map[string]bool{"bytes": true, "strings": true, "math/big": true, "sort": true, "reflect": true, "slices": true}
+
+type ctRewriter struct {
+	p       *pkgInfo
+	curFunc string
+	used    bool
+}
+
+func (r *ctRewriter) newSite(pos token.Pos, kind string) ast.Expr {
+	id := len(sites) + 1
+	ps := fset.Position(pos)
+	sites = append(sites, site{id, fmt.Sprintf("%s:%d:%d", filepath.Join(r.p.rel, filepath.Base(ps.Filename)), ps.Line, ps.Column), kind, r.curFunc})
+	r.used = true
+	return &ast.BasicLit{Kind: token.INT, Value: fmt.Sprint(id)}
+}
+
+func (r *ctRewriter) call(fn string, pos token.Pos, kind string, args ...ast.Expr) ast.Expr {
+	return &ast.CallExpr{Fun: &ast.SelectorExpr{X: ast.NewIdent("vtrace"), Sel: ast.NewIdent(fn)}, Args: append([]ast.Expr{r.newSite(pos, kind)}, args...)}
+}
+
+func (r *ctRewriter) isConst(e ast.Expr) bool {
+	tv, ok := r.p.info.Types[e]
+	return ok && tv.Value != nil
+}
+
+func (r *ctRewriter) isInteger(e ast.Expr) bool {
+	tv, ok := r.p.info.Types[e]
+	if !ok || tv.Type == nil {
+		return false
+	}
+	b, ok := tv.Type.Underlying().(*types.Basic)
+	return ok && b.Info()&types.IsInteger != 0 && b.Info()&types.IsUntyped == 0
+}
+
+func isTraceCall(e ast.Expr) bool {
+	c, ok := e.(*ast.CallExpr)
+	if !ok {
+		return false
+	}
+	s, ok := c.Fun.(*ast.SelectorExpr)
+	if !ok {
+		return false
+	}
+	id, ok := s.X.(*ast.Ident)
+	return ok && id.Name == "vtrace"
+}
+
+// wrapCond records the outcome of every leaf operand of a condition.
+func (r *ctRewriter) wrapCond(e ast.Expr, kind string) ast.Expr {
+	switch v := e.(type) {
+	case *ast.ParenExpr:
+		v.X = r.wrapCond(v.X, kind)
+		return v
+	case *ast.BinaryExpr:
+		if v.Op == token.LAND || v.Op == token.LOR {
+			v.X = r.wrapCond(v.X, kind)
+			v.Y = r.wrapCond(v.Y, kind)
+			return v
+		}
+	case *ast.UnaryExpr:
+		if v.Op == token.NOT {
+			v.X = r.wrapCond(v.X, kind)
+			return v
+		}
+	}
+	if isTraceCall(e) {
+		return e
+	}
+	return r.call("B", e.Pos(), kind, e)
+}
+
+func (r *ctRewriter) wrapInt(e ast.Expr, kind string) ast.Expr {
+	if e == nil || r.isConst(e) || !r.isInteger(e) || isTraceCall(e) {
+		return e
+	}
+	return r.call("I", e.Pos(), kind, e)
+}
+
+// expr is applied post-order to every expression.
+func (r *ctRewriter) expr(e ast.Expr) ast.Expr {
+	switch v := e.(type) {
+	case *ast.IndexExpr:
+		if tv, ok := r.p.info.Types[v.X]; ok && tv.IsValue() {
+			if _, isMap := tv.Type.Underlying().(*types.Map); !isMap {
+				v.Index = r.wrapInt(v.Index, "index")
+			}
+		}
+	case *ast.SliceExpr:
+		v.Low = r.wrapInt(v.Low, "slice-bound")
+		v.High = r.wrapInt(v.High, "slice-bound")
+		v.Max = r.wrapInt(v.Max, "slice-bound")
+	case *ast.BinaryExpr:
+		switch v.Op {
+		case token.SHL, token.SHR:
+			v.Y = r.wrapInt(v.Y, "shift-count")
+		case token.QUO, token.REM:
+			if !r.isConst(v.Y) && r.isInteger(v.Y) {
+				v.X = r.wrapInt(v.X, "div-operand")
+				v.Y = r.wrapInt(v.Y, "div-operand")
+			}
+		case token.EQL, token.NEQ:
+			// comparisons of composite values compile to loops / calls
+			if tv, ok := r.p.info.Types[v.X]; ok && tv.Type != nil {
+				switch tv.Type.Underlying().(type) {
+				case *types.Array, *types.Struct, *types.Interface:
+					return r.call("B", v.Pos(), "composite-compare", v)
+				case *types.Basic:
+					if tv.Type.Underlying().(*types.Basic).Info()&types.IsString != 0 && !r.isConst(v) {
+						return r.call("B", v.Pos(), "string-compare", v)
+					}
+				}
+			}
+		}
+	case *ast.CallExpr:
+		if se, ok := v.Fun.(*ast.SelectorExpr); ok {
+			if id, ok := se.X.(*ast.Ident); ok {
+				if pn, ok := r.p.info.Uses[id].(*types.PkgName); ok && denyPkgs[pn.Imported().Path()] {
+					for i, a := range v.Args {
+						if !r.isConst(a) && !isTraceCall(a) {
+							v.Args[i] = r.call("A", a.Pos(), "vartime-call-operand:"+pn.Imported().Path()+"."+se.Sel.Name, a)
+						}
+					}
+				}
+			}
+			// methods of math/big values
+			if sel := r.p.info.Selections[se]; sel != nil && sel.Obj().Pkg() != nil && denyPkgs[sel.Obj().Pkg().Path()] {
+				for i, a := range v.Args {
+					if !r.isConst(a) && !isTraceCall(a) {
+						v.Args[i] = r.call("A", a.Pos(), "vartime-call-operand:"+sel.Obj().Pkg().Path()+"."+se.Sel.Name, a)
+					}
+				}
+			}
+		}
+	}
+	return e
+}
+
+var exprType = reflect.TypeOf((*ast.Expr)(nil)).Elem()
+
+// walk applies r.expr post-order to every ast.Expr reachable from v and
+// handles statement-level conditions.
+func (r *ctRewriter) walk(v reflect.Value) {
+	switch v.Kind() {
+	case reflect.Interface:
+		if v.IsNil() {
+			return
+		}
+		r.walk(v.Elem())
+	case reflect.Pointer:
+		if v.IsNil() {
+			return
+		}
+		switch n := v.Interface().(type) {
+		case *ast.Object, *ast.Scope, *ast.CommentGroup, *ast.Comment, *ast.Ident, *ast.BasicLit:
+			_ = n
+			return
+		}
+		r.walk(v.Elem())
+		r.afterNode(v.Interface())
+	case reflect.Struct:
+		for i := 0; i < v.NumField(); i++ {
+			f := v.Field(i)
+			if !f.CanSet() {
+				continue
+			}
+			if f.Type() == exprType {
+				if f.IsNil() {
+					continue
+				}
+				// types are expressions too: do not descend into pure type syntax
+				switch f.Interface().(type) {
+				case *ast.ArrayType, *ast.StructType, *ast.FuncType, *ast.InterfaceType, *ast.MapType, *ast.ChanType:
+					continue
+				}
+				r.walk(f)
+				ne := r.expr(f.Interface().(ast.Expr))
+				f.Set(reflect.ValueOf(ne))
+				continue
+			}
+			r.walk(f)
+		}
+	case reflect.Slice:
+		for i := 0; i < v.Len(); i++ {
+			el := v.Index(i)
+			if el.Type() == exprType {
+				if el.IsNil() {
+					continue
+				}
+				r.walk(el)
+				el.Set(reflect.ValueOf(r.expr(el.Interface().(ast.Expr))))
+				continue
+			}
+			r.walk(el)
+		}
+	}
+}
+
+func (r *ctRewriter) afterNode(n any) {
+	switch s := n.(type) {
+	case *ast.IfStmt:
+		s.Cond = r.wrapCond(s.Cond, "if")
+	case *ast.ForStmt:
+		if s.Cond != nil {
+			s.Cond = r.wrapCond(s.Cond, "for")
+		}
+	case *ast.SwitchStmt:
+		if s.Tag == nil {
+			for _, c := range s.Body.List {
+				cc := c.(*ast.CaseClause)
+				for i, e := range cc.List {
+					cc.List[i] = r.wrapCond(e, "switch-case")
+				}
+			}
+		} else if r.isInteger(s.Tag) && !r.isConst(s.Tag) {
+			s.Tag = r.call("I", s.Tag.Pos(), "switch-tag", s.Tag)
+		} else if !r.isConst(s.Tag) {
+			s.Tag = r.call("A", s.Tag.Pos(), "switch-tag", s.Tag)
+		}
+	}
+}
+
+// rangeLenStmts: for `range x` over a slice held in a plain identifier or
+// selector, record len(x) (the trip count) before the loop.
+func (r *ctRewriter) blockRangeLens(b *ast.BlockStmt) {
+	if b == nil {
+		return
+	}
+	var out []ast.Stmt
+	for _, st := range b.List {
+		if rs, ok := st.(*ast.RangeStmt); ok {
+			if tv, ok := r.p.info.Types[rs.X]; ok && tv.Type != nil {
+				_, isSlice := tv.Type.Underlying().(*types.Slice)
+				_, isId := rs.X.(*ast.Ident)
+				_, isSel := rs.X.(*ast.SelectorExpr)
+				if isSlice && (isId || isSel) {
+					out = append(out, &ast.ExprStmt{X: r.call("I", rs.Pos(), "range-len", &ast.CallExpr{Fun: ast.NewIdent("len"), Args: []ast.Expr{rs.X}})})
+				}
+			}
+		}
+		out = append(out, st)
+	}
+	b.List = out
+}
+
 func instrumentCT(p *pkgInfo, out string, overlay map[string]string, report map[string]any) {
-	die("ct mode not built yet")
+	first := len(sites)
+	for i, f := range p.files {
+		r := &ctRewriter{p: p}
+		for _, d := range f.Decls {
+			fd, ok := d.(*ast.FuncDecl)
+			if !ok || fd.Body == nil {
+				continue
+			}
+			r.curFunc = fd.Name.Name
+			if fd.Recv != nil && len(fd.Recv.List) > 0 {
+				r.curFunc = types.ExprString(fd.Recv.List[0].Type) + "." + fd.Name.Name
+			}
+			// range trip counts first (needs original nodes for type info)
+			ast.Inspect(fd.Body, func(x ast.Node) bool {
+				if b, ok := x.(*ast.BlockStmt); ok {
+					r.blockRangeLens(b)
+				}
+				if cc, ok := x.(*ast.CaseClause); ok {
+					tmp := &ast.BlockStmt{List: cc.Body}
+					r.blockRangeLens(tmp)
+					cc.Body = tmp.List
+				}
+				return true
+			})
+			r.walk(reflect.ValueOf(fd.Body))
+			if strings.Contains(fd.Name.Name, "VarTime") {
+				mark := &ast.ExprStmt{X: r.call("Mark", fd.Pos(), "vartime-function-entered")}
+				fd.Body.List = append([]ast.Stmt{mark}, fd.Body.List...)
+			}
+		}
+		if r.used {
+			addImport(f, "vtrace", modPath+"/vtrace")
+		}
+		writeFile(p, i, f, out, overlay)
+	}
+	report[p.path] = map[string]any{"sites": len(sites) - first}
+	report["sites"] = sites
 }
